@@ -100,6 +100,25 @@ theorem recover_exact_3 (ps : List (Contrib K)) (a : ℕ → K)
   simp only [solveBin, e0, e1, e2]
   rw [solve3_correct _ _ _ _ _ _ _ _ h]
 
+/-- **exact recovery, any number of angular terms** (orders 6, 8, … and odd orders with four and more terms, which the code inverts with a
+    general matrix inverse): whenever `C` is a left inverse of the ring's Hankel matrix of weight moments, `C` applied to the data moments
+    returns the model's coefficients — for every pixel set and every weights -/
+theorem recover_exact_general (N : ℕ) (ps : List (Contrib K)) (a : ℕ → K)
+    (hmodel : ∀ p ∈ ps, p.v = p.ω * ∑ m ∈ range N, a m * p.t ^ m)
+    (C : ℕ → ℕ → K)
+    (hC : ∀ k, k < N → ∀ m, m < N → ∑ n ∈ range N, C k n * weightMoment ps (n + m) = if k = m then 1 else 0)
+    (k : ℕ) (hk : k < N) :
+    ∑ n ∈ range N, C k n * dataMoment ps n = a k := by
+  have h1 : ∀ n, dataMoment ps n = ∑ m ∈ range N, weightMoment ps (n + m) * a m := normal_equations N ps a hmodel
+  simp only [h1, Finset.mul_sum]
+  rw [Finset.sum_comm]
+  have h2 : ∀ m ∈ range N, ∑ n ∈ range N, C k n * (weightMoment ps (n + m) * a m) = (if k = m then 1 else 0) * a m := by
+    intro m hm
+    rw [← hC k hk m (Finset.mem_range.mp hm), Finset.sum_mul]
+    apply Finset.sum_congr rfl; intro n _; ring
+  rw [Finset.sum_congr rfl h2]
+  simp [Finset.sum_ite_eq, Finset.mem_range.mpr hk]
+
 /-! non-vacuity: two pixels with cos²θ = 0 and 1 determine an order-2 model -/
 example : (weightMoment ([⟨1, 0, 5⟩, ⟨1, 1, 8⟩] : List (Contrib ℚ)) 0)
       * weightMoment ([⟨1, 0, 5⟩, ⟨1, 1, 8⟩] : List (Contrib ℚ)) 2
